@@ -115,7 +115,8 @@ def build_call(L, tool, par, S, F, rec):
     if tool == "enumerate":
         return lambda: L.enumerate(S[0], par["start"])
     if tool == "iter":
-        return lambda: L.iter(F("subject"), Item(0, 0, SENTINEL_KEY))
+        rec.sentinel = Item(0, 0, 7 if par.get("sent") == "ident" else SENTINEL_KEY)
+        return lambda: L.iter(F("subject"), rec.sentinel)
     if tool == "accumulate":
         kw = {"initial": Node("initial")} if par["init"] else {}
         if par["fn"] == "func":
@@ -295,6 +296,8 @@ def execute(case, L, *, sync=False, flav=None, susp=0, fault_kind="exc", cancel_
                 def sem():
                     state["p"] += 1
                     p = state["p"]
+                    if p > len(keys) and par.get("sent") == "ident":
+                        return rec.sentinel        # the sentinel object itself
                     return Item(1, p, keys[p - 1] if p <= len(keys) else SENTINEL_KEY)
 
             made[name] = make_callable(call_flav, rec, name, sem)
